@@ -411,14 +411,20 @@ def generate(tier, seed):
     calpha = ["0", "1", "9", "f", "x", "-", "+", " "]
     cshort = [list(t) for n in range(0, 5) for t in itertools.product(calpha, repeat=n)]
     for s in cshort:
-        for fn, b in (("strtol", 10), ("strtoul", 16), ("stoi", 10), ("atoi", 10), ("strtol", 0), ("stoul", 0)):
-            if len(s) == 4 and fn in ("stoi", "atoi", "stoul") and not thorough:
+        for fn, b in (("strtol", 10), ("strtoul", 16), ("stoi", 10), ("atoi", 10), ("strtol", 0), ("stoul", 0), ("stol", 16)):
+            if len(s) == 4 and fn in ("stoi", "atoi", "stoul", "stol") and not thorough:
                 continue
             op = "sto" if fn.startswith("sto") else "cstr"
             add("%s fn=%s s=%s base=%d" % (op, fn, enc(s), b), op + ("/short" if b else "/short-base0"))
             if fn.startswith("strto") and len(s) <= 3:
                 add("cstr_erange fn=%s s=%s base=%d" % (fn, enc(s), b), "cstr_erange/short")
-    # base 0 (auto-detect): every strto*/sto* function on hexadecimal / octal / decimal texts around its limits
+    # base 16 and 0 on views / strings that END in or right behind a 0x prefix (sto*: exact-size heap views, so the prefix
+    # test of strto_integer must not look at str[pos + 2] when only two characters are left)
+    for fn in cfns + sfns:
+        op = "sto" if fn in sfns else "cstr"
+        for t in ("0x", "0X", "-0x", "+0X", " 0x", "\t-0X", "0xg", "0x1", "-0x1f", "+0XfF", "0x0x1", "00x1", "0x-1", "0x+1", "x1", "0"):
+            for b in (16, 0):
+                add("%s fn=%s s=%s base=%d" % (op, fn, enc(t), b), op + "/prefix-edge")
     for fn in cfns + sfns:
         op = "sto" if fn in sfns else "cstr"
         for t in auto_texts(FN_TY[fn], rnd):
